@@ -15,7 +15,8 @@ from ..prog import DIALECT_CLASSES, registry
 PROP = "C10"
 LEVEL = "exploration"
 RULE = ("inner queries from a shape grammar (aliased terms in WHERE / GROUP BY / HAVING / ORDER BY / ON / select list, boolean groups, "
-        "nested subqueries to depth 3, set operations, limit/offset, joins; exhaustive over the single-feature shapes, seeded random "
+        "nested subqueries to depth 3, set operations (with own ORDER BY / LIMIT), limit/offset, joins, scalar subqueries as terms of "
+        "SELECT/WHERE/GROUP BY/HAVING/ORDER BY, inner CTEs, USING joins, index hints, PREWHERE, ROLLUP, FOR UPDATE; exhaustive over the single-feature shapes, seeded random "
         "combinations on top) x 12 embedding positions x six dialect classes x {inline, parameterised}. non-trivial = the inner "
         "query carries at least one alias or a nested query; distinct = (shape, position, dialect, mode)")
 ASSUMPTIONS = ["token-level comparison with the dialect's reference lexer; placeholders compare by kind (PostgreSQL numbering is C04's subject)"]
